@@ -573,7 +573,9 @@ def rule_F(ctx):
         for (cx, cy), r in cands:
             if all(math.hypot(p[0] - cx, p[1] - cy) <= r * (1 + 1e-12) + 1e-12 for p in pts) and (best is None or r < best):
                 best = r
+                CENTRE[0] = (cx, cy)
         return best
+    CENTRE = [None]
 
     class Circle(orders.PyStub):
         def __init__(self, radius):
@@ -586,9 +588,21 @@ def rule_F(ctx):
     OT = absint.classref(ctx, 'tracklib.core.obs_time.ObsTime', fn)
     fn['sqrt'], fn['hypot'] = math.sqrt, math.hypot
 
+    try:
+        RepoCircle = absint.classref(ctx, 'tracklib.util.geometrics.Circle', fn)
+    except Exception:          # noqa: BLE001
+        RepoCircle = None
+
     def min_circle(piece):
         pts_ = [(o.fields['position'].fields['E'], o.fields['position'].fields['N']) for o in piece.fields['_Track__POINTS']]
-        return Circle(circle_of(pts_)) if pts_ else None
+        if not pts_:
+            return None
+        r_ = circle_of(pts_)
+        if RepoCircle is not None:
+            # (the circle is an object of the repository's own Circle class - centre and radius by the checker - for code that asks it more than its radius)
+            cx, cy = CENTRE[0] if len(set(pts_)) > 1 else pts_[0]
+            return RepoCircle(EN(cx, cy, 0.0), r_)
+        return Circle(r_)
     fn['minCircle'] = min_circle
     fn['__globals__']['minCircle'] = min_circle
     run = orders.make_func(f.node, fn)
